@@ -200,3 +200,31 @@ func TestSurvey(t *testing.T) {
 }
 
 var regexpNum = regexp.MustCompile(`[0-9]+`)
+
+// TestKnown re-runs the reproducers of the recorded findings and prints a
+// KNOWN-FINDING line for each that still fails.
+func TestKnown(t *testing.T) {
+	e := vt.Get()
+	defer e.Flush()
+	if e.FC == "" {
+		t.Skip("needs the orchestrator (VERIF_FC)")
+	}
+	for _, k := range e.KnownFor("C01") {
+		b, err := os.ReadFile(filepath.Join(e.VerifDir, k.Reproducer))
+		if err != nil {
+			t.Fatalf("known finding %s: reproducer missing: %v", k.ID, err)
+		}
+		var fc vt.FailCase
+		if err := json.Unmarshal(b, &fc); err != nil {
+			t.Fatalf("known finding %s: %v", k.ID, err)
+		}
+		var c Case
+		json.Unmarshal(fc.Case, &c)
+		if err := check(c); err != nil {
+			vt.PrintKnown(k)
+		} else {
+			t.Logf("known finding %s no longer reproduces", k.ID)
+		}
+		e.Record("TestKnown", vt.Hash(c.Src), true, []string{"known finding " + k.ID}, nil)
+	}
+}
